@@ -897,3 +897,143 @@ Proof.
   - intros u Hu. rewrite Tp, Tps. apply Wk in Hu. destruct (e_wprog _ _ _ R u Hu) as [A|A]; [left; exact A|right; apply Pg; exact A].
   - intros q0. rewrite M7. intro H. apply Pg. apply (e_exited _ _ _ R q0 H).
 Qed.
+
+Lemma exec_instr_E : forall pd st m t i r st' ev,
+  CInv (core st) -> SlInv st -> PqInv st -> XInv st -> ERel pd st m -> (t < nthr st)%nat ->
+  tcont (thr st t) = i :: r -> exec_instr st t i r = (st', ev) ->
+  ERel pd st' (fold_left m14r_step (evs t ev) m).
+Proof.
+  intros pd st m t i r st' ev I S Q X R Ht Hc H.
+  assert (Dec : eqj i \/ (exists m0 q d, i = ILock m0 (LPqHandler q d)) \/ (exists m0 q x, i = ILock m0 (LPqLSend q x)) \/
+                (exists m0 q, i = ILock m0 (LPqPanic q)) \/ (exists m0 q msgs tm, i = IUnlock m0 (UPqFwd q msgs tm))).
+  { destruct i; try (left; exact Logic.I); destruct a; try (left; exact Logic.I); right; eauto 8. }
+  destruct Dec as [D|[[m0 [q [d ->]]]|[[m0 [q [x ->]]]|[[m0 [q ->]]|[m0 [q [msgs [tm ->]]]]]]]].
+  - eapply exec_instr_E_quiet; eauto.
+  - eapply exec_handler_E; eauto.
+  - eapply exec_lsend_E; eauto.
+  - eapply exec_panic_E; eauto.
+  - eapply exec_ufwd_E; eauto.
+Qed.
+
+(** ** normalisation at the end of a step of the main thread *)
+Definition hd_handler (new : list instr) (q : Z) (d : bool) : Prop := exists m0, hd_error new = Some (ILock m0 (LPqHandler q d)).
+
+Lemma e_NS_step : forall pd st s acc i r s' acc' new m,
+  XInv st ->
+  ERel pd (NS st s acc (i :: r)) m -> norm_head i ->
+  pushes new = [] ->
+  (forall j, In j (tl new) -> eqi j) ->
+  (forall j, hd_error new = Some j -> eqi j \/ exists q d, j = ILock (MPq q) (LPqHandler q d)) ->
+  (forall q d, hd_handler new q d -> pexists (pps st q) = true /\ memZ q (m14_term m) = false /\
+     (d = true -> (forall x, slab_get s' x <> Some (HPipe q)) /\ (forall u x, ~ In (x, HPipe q) (tpushes (thr (NS st s acc (i :: r)) u))))) ->
+  (forall y h, slab_get s' y = Some h -> slab_get s y = Some h) ->
+  (forall y, In y (cont_dels new) -> In y (dels_of i)) ->
+  (forall y q, In y (dl st ++ cont_dels (i :: r)) -> slab_get s y = Some (HPipe q) ->
+     (In y (dl st ++ cont_dels (new ++ r)) /\ slab_get s' y = Some (HPipe q)) \/ hd_handler new q true) ->
+  ERel pd (NS st s' acc' (new ++ r)) m.
+Proof.
+  intros pd st s acc i r s' acc' new m X R Hi Hpn Htl Hhd Hh Hs Hd Hp.
+  destruct (NS_fields st s acc (i :: r)) as [A1 [A2 [A3 [A4 [A5 [A6 [A7 [A8 [A9 A10]]]]]]]]].
+  destruct (NS_fields st s' acc' (new ++ r)) as [B1 [B2 [B3 [B4 [B5 [B6 [B7 [B8 [B9 B10]]]]]]]]].
+  set (SA := NS st s acc (i :: r)) in *. set (SB := NS st s' acc' (new ++ r)) in *.
+  assert (Th : forall u, u <> main -> thr SB u = thr SA u) by (intros u Hu; rewrite A10, B10; auto).
+  assert (Tpm : tpipe (thr SB main) = tpipe (thr SA main)) by (unfold SA, SB, NS; thr_simpl).
+  assert (Cum : tcur (thr SB main) = tcur (thr SA main)) by (unfold SA, SB, NS; thr_simpl).
+  assert (Tp : forall u, tpipe (thr SB u) = tpipe (thr SA u)) by (intro u; destruct (Nat.eq_dec u main) as [->|E]; [exact Tpm|rewrite Th; auto]).
+  assert (Cu : forall u, tcur (thr SB u) = tcur (thr SA u)) by (intro u; destruct (Nat.eq_dec u main) as [->|E]; [exact Cum|rewrite Th; auto]).
+  assert (Hn : nthr SB = nthr SA) by (rewrite A5, B5; reflexivity).
+  assert (Pps : pps SB = pps SA) by (rewrite A7, B7; reflexivity).
+  assert (Wk : forall u, wkr SB u <-> wkr SA u) by (intro u; unfold wkr; rewrite Hn, Tp; tauto).
+  assert (XA : forall u, wkr SA u -> u <> main).
+  { intros u [_ W] E. subst u. assert (Z0 : tpipe (thr SA main) = tpipe (thr st main)) by (unfold SA, NS; thr_simpl).
+    rewrite Z0 in W. destruct (x_main _ X) as [_ Xm]. lia. }
+  assert (Ni : hq i /\ (forall q, ufw q [i] = []) /\ push_of i = [] /\ (forall m0 q, i <> ILock m0 (LPqPanic q)) /\ (forall m0 q d, i <> ILock m0 (LPqHandler q d)) /\
+               (forall m0 q ms tm, i <> IUnlock m0 (UPqFwd q ms tm))).
+  { destruct i; cbn in Hi; try contradiction; repeat split; try exact Logic.I; try reflexivity; intros; discriminate. }
+  destruct Ni as [N1 [N2 [N3 [N4 [N5 N6]]]]].
+  assert (MA : mcont SA = i :: r) by exact A8. assert (MB : mcont SB = new ++ r) by exact B8.
+  assert (A7' : pps SA = pps st) by exact A7.
+  clearbody SA SB.
+  assert (Rq : forall j, In j r -> hq j) by (intros j Hj; apply (e_hpos _ _ _ R i r j MA Hj)).
+  destruct (hq_list r Rq) as [Ru [Rt [Rh Rf]]].
+  assert (NewQ : forall j, In j new -> eqi j \/ exists q d, j = ILock (MPq q) (LPqHandler q d) /\ hd_handler new q d).
+  { intros j Hj. destruct new as [|n0 new']; [destruct Hj|]. destruct Hj as [<-|Hj]; [|left; apply Htl; exact Hj].
+    destruct (Hhd n0 eq_refl) as [E|[q [d E]]]; [left; exact E|right; exists q, d; split; [exact E|exists (MPq q); rewrite E; reflexivity]]. }
+  assert (NewU : forall q, ufw q new = []).
+  { intro q. assert (Z0 : forall k, (forall j, In j k -> eqi j \/ exists q0 d, j = ILock (MPq q0) (LPqHandler q0 d) /\ hd_handler new q0 d) -> ufw q k = []).
+    { induction k as [|j k IH]; intro Hk; [reflexivity|]. rewrite (ufw_cons q j k), IH by (intros; apply Hk; right; assumption). rewrite app_nil_r.
+      destruct (Hk j (or_introl eq_refl)) as [E|[q0 [d [-> _]]]]; [apply (proj1 (proj2 (proj2 (eqi_facts j E))))|reflexivity]. }
+    apply Z0. exact NewQ. }
+  assert (NewF : forall m0 q ms tm, ~ In (IUnlock m0 (UPqFwd q ms tm)) new).
+  { intros m0 q ms tm Hin. destruct (NewQ _ Hin) as [E|[q0 [d [E _]]]]; [exact E|discriminate E]. }
+  assert (NewP : forall m0 q, ~ In (ILock m0 (LPqPanic q)) new).
+  { intros m0 q Hin. destruct (NewQ _ Hin) as [E|[q0 [d [E _]]]]; [exact E|discriminate E]. }
+  assert (Tps : forall u, tpushes (thr SB u) = tpushes (thr SA u)).
+  { intro u. destruct (Nat.eq_dec u main) as [->|E]; [|rewrite Th; auto]. unfold tpushes. rewrite A8, B8, A9, B9, pushes_app, Hpn, pushes_cons, N3. reflexivity. }
+  assert (Pk : pipeline SA = dl st ++ cont_dels (i :: r)) by (unfold pipeline; rewrite A2, A8; reflexivity).
+  assert (Pk' : pipeline SB = dl st ++ cont_dels (new ++ r)) by (unfold pipeline; rewrite B2, B8; reflexivity).
+  assert (Hsub : forall y, In y (pipeline SB) -> In y (pipeline SA)).
+  { intros y Hin. rewrite Pk' in Hin. rewrite Pk. rewrite cont_dels_app in Hin. rewrite cont_dels_cons. rewrite !in_app_iff in *.
+    destruct Hin as [Hin|[Hin|Hin]]; auto. }
+  assert (Hdl : forall m0 q d, In (ILock m0 (LPqHandler q d)) (mcont SB) ->
+                In (ILock m0 (LPqHandler q d)) (mcont SA) \/ (m0 = MPq q /\ hd_handler new q d)).
+  { intros m0 q d Hin. rewrite MB in Hin. apply in_app_or in Hin. destruct Hin as [Hin|Hin]; [|left; rewrite MA; right; exact Hin].
+    destruct (NewQ _ Hin) as [E|[q0 [d0 [E Hd0]]]]; [destruct E|]. inversion E; subst. right. auto. }
+  assert (Huf : forall m0 q ms tm, In (IUnlock m0 (UPqFwd q ms tm)) (mcont SB) -> In (IUnlock m0 (UPqFwd q ms tm)) (mcont SA)).
+  { intros m0 q ms tm Hin. rewrite MB in Hin. apply in_app_or in Hin. destruct Hin as [Hin|Hin]; [exfalso; exact (NewF _ _ _ _ Hin)|rewrite MA; right; exact Hin]. }
+  assert (Uf : forall q, ufw q (mcont SB) = ufw q (mcont SA)).
+  { intro q. rewrite MA, MB, ufw_app, (ufw_cons q i r), NewU, N2. reflexivity. }
+  assert (Htm : forall q, hasterm q (mcont SB) <-> hasterm q (mcont SA)).
+  { intro q. split; intros [m0 [ms [b Hin]]]; exists m0, ms, b; [apply Huf; exact Hin|].
+    rewrite MA in Hin. rewrite MB. destruct Hin as [E|Hin]; [exfalso; exact (N6 _ _ _ _ E)|apply in_or_app; right; exact Hin]. }
+  assert (Pg : forall q, prog14 SA m q -> prog14 SB m q).
+  { intros q [A|[[x [A B]]|[A|A]]].
+    - left. exact A.
+    - rewrite Pk in A. rewrite A1 in B. destruct (Hp x q A B) as [[C1 C2]|[m0 C]].
+      + right; left. exists x. rewrite Pk', B1. auto.
+      + right; right; left. rewrite MB. destruct new as [|n0 new']; [discriminate C|]. cbn in C. inversion C; subst.
+        destruct (Hhd _ eq_refl) as [E|[q0 [d0 E]]]; [destruct E|]. inversion E; subst. left. reflexivity.
+    - right; right; left. rewrite MA in A. rewrite MB. destruct A as [A|A]; [exfalso; exact (N5 _ _ _ A)|apply in_or_app; right; exact A].
+    - right; right; right. apply Htm. exact A. }
+  constructor.
+  - apply (e_bad _ _ _ R).
+  - rewrite Hn. apply (e_nthr _ _ _ R).
+  - intros t0 q E. rewrite Tp, !Cu. destruct (e_sp _ _ _ R t0 q E) as [A [B C]]. split; [exact A|]. split; [exact B|].
+    destruct (Nat.eq_dec t0 main) as [->|Ht0]; [rewrite A8 in C; discriminate C|rewrite Th; auto].
+  - intros u q. rewrite Tp. apply (e_owner _ _ _ R).
+  - intros u u'. rewrite !Wk, !Tp. apply (e_wuniq _ _ _ R).
+  - intros u. rewrite Wk, Tp, Pps. apply (e_wex _ _ _ R).
+  - intros q. rewrite Pps. intro H. destruct (e_exw _ _ _ R q H) as [u [A B]]. exists u. rewrite Wk, Tp. auto.
+  - intros q. rewrite Pps. intro Hq. destruct (e_noex _ _ _ R q Hq) as [E1 E2]. split; [|exact E2].
+    intros x G. rewrite B1 in G. apply (E1 x). rewrite A1. apply Hs. exact G.
+  - intros q H. rewrite Pps. destruct H as [[m0 [ms [tm H]]]|[m0 [d H]]].
+    + apply (e_ins _ _ _ R q). left. exists m0, ms, tm. apply Huf. exact H.
+    + destruct (Hdl _ _ _ H) as [H'|[_ H']]; [apply (e_ins _ _ _ R q); right; exists m0, d; exact H'|].
+      rewrite A7'. apply (Hh q d H').
+  - intros x y q. rewrite B1. intros G1 G2. apply (e_uniq _ _ _ R x y q); rewrite A1; apply Hs; assumption.
+  - intros u Hu. cbn zeta. rewrite Tp, Uf, Pps. apply Wk in Hu. rewrite (Th u (XA u Hu)). apply (e_ls _ _ _ R u Hu).
+  - intros u x Hu. rewrite Cu, Tp. apply Wk in Hu. apply (e_lscur _ _ _ R u x Hu).
+  - intros q x. rewrite Uf, Pps. apply (e_lsdone _ _ _ R).
+  - intros q H. destruct (e_term _ _ _ R q H) as [A [B [C [D E]]]]. rewrite B1, Pps.
+    split; [intros x G; apply (A x); rewrite A1; apply Hs; exact G|]. split; [intros u x; rewrite Tps; apply B|].
+    split; [|split; [intros m0 ms tm Hin; apply (D m0 ms tm); apply Huf; exact Hin|exact E]].
+    intros m0 d Hin. destruct (Hdl _ _ _ Hin) as [H'|[_ H']]; [exact (C _ _ H')|]. destruct (Hh q d H') as [_ [T _]]. rewrite T in H. discriminate H.
+  - intros m0 q Hin. rewrite B1. destruct (Hdl _ _ _ Hin) as [H'|[E H']].
+    + destruct (e_hdel _ _ _ R m0 q H') as [A [B C]]. split; [exact A|]. split; [intros x G; apply (B x); rewrite A1; apply Hs; exact G|intros u x; rewrite Tps; apply C].
+    + destruct (Hh q true H') as [_ [_ Z0]]. destruct (Z0 eq_refl) as [Z1 Z2]. split; [exact E|]. split; [exact Z1|intros u x; rewrite Tps; apply Z2].
+  - intros q Hin. apply Htm in Hin. destruct (e_hterm _ _ _ R q Hin) as [A [B C]]. rewrite B1, Pps.
+    split; [intros x G; apply (A x); rewrite A1; apply Hs; exact G|]. split; [intros u x; rewrite Tps; apply B|exact C].
+  - intros i0 r0 j E Hj. rewrite MB in E. destruct new as [|n0 new'].
+    + cbn in E. apply Rq. rewrite E. right. exact Hj.
+    + cbn in E. inversion E; subst. apply in_app_or in Hj. destruct Hj as [Hj|Hj]; [apply (proj1 (eqi_facts j (Htl j Hj)))|apply Rq; exact Hj].
+  - intros u j Hu Hj. rewrite (Th u Hu) in Hj. apply (e_hmain _ _ _ R u j Hu Hj).
+  - intros u Hu. cbn zeta. rewrite Tp, Pps, Htm. apply Wk in Hu. rewrite (Th u (XA u Hu)). apply (e_panic _ _ _ R u Hu).
+  - intros u q m0 a b E. rewrite Wk, Tp.
+    destruct (Nat.eq_dec u main) as [->|Hu]; [|rewrite (Th u Hu) in E; apply (e_porder _ _ _ R u q m0 a b E)].
+    rewrite B8, B9, <- app_assoc in E.
+    destruct (split_quiet new _ a b _ (fun i0 H0 E0 => NewP m0 q (eq_ind _ (fun z => In z new) H0 _ E0)) E) as [a' [E1 E2]].
+    apply (e_porder _ _ _ R main q m0 (i :: a') b). rewrite A8, A9. cbn. rewrite E2. reflexivity.
+  - intros m0 q ms b Hin. apply Huf in Hin. apply (e_ufterm _ _ _ R m0 q ms b Hin).
+  - intros u Hu. rewrite Tp, Tps. apply Wk in Hu. destruct (e_wprog _ _ _ R u Hu) as [A|A]; [left; exact A|right; apply Pg; exact A].
+  - intros q H. apply Pg. apply (e_exited _ _ _ R q H).
+Qed.
